@@ -18,6 +18,10 @@
                             from answer to answer; Model/SelScript.lean, C13's scripted device) instead of refusing
                             with CAh is read exactly too, in at most 16 requests.
   * `empty_log_nothing`   — an empty log yields [] after the single Get SEL Info exchange.
+  * `entries_exact_after_history`, `get_entry_exact_after_history`, `get_and_clear_after_history`
+                          — the same for a call made after ANY history of operations on the same Ipmi object (whatever
+                            their outcome: RetryError, CompletionCodeError, DecodingError) once the device is healthy:
+                            the model of a call takes the device and nothing else; `source_variant` ties that to the tree.
   * `source_variant`      — what the theorems need of the variant read from today's pyipmi/sel.py (they are
                             stated for THAT variant, `selVariant`): a floor of max_req_len, where there is
                             one, leaves the 1-byte request possible; get_and_clear_sel_entry has a retry budget.
@@ -54,9 +58,14 @@ theorem constants_ok : selCfg = stdCfg := by decide
 where get_sel_entry has a floor for max_req_len it is not above 0 - a request of ONE byte is still
 made, so that a device with a partial-read limit of 1 byte is read (limits 1..16) -, and
 get_and_clear_sel_entry runs on a retry budget, so that it terminates whatever the peer does
-(`get_and_clear_atomic` has no fuel hypothesis).  A regression of either stops the build here.
+(`get_and_clear_atomic` has no fuel hypothesis); and a call of the retrieval functions sees nothing an
+earlier call left on the Ipmi object (`selStateless`: `self.max_req_len = ENTIRE_RECORD` is an unconditional
+statement in front of the loop of get_sel_entry, nothing else is kept) - the models take the device and nothing
+else, so the theorems hold for EVERY call of a history (`…_after_history`), the ones behind a call that ended in
+RetryError / CompletionCodeError / DecodingError included.  A regression of any of the three stops the build here.
 (That the floor EXISTS is C13's clause: Props.C13.source_variant.) -/
-theorem source_variant : floorOkB selVariant = true ∧ selVariant.budget.isSome = true := by decide
+theorem source_variant : floorOkB selVariant = true ∧ selVariant.budget.isSome = true ∧
+    Gen.Loops10.selStateless = true := by decide
 
 theorem floor_ok : FloorOk selVariant := floorOk_of_B source_variant.1
 
@@ -106,6 +115,68 @@ theorem truncating_device_read_exactly (e : List Nat) (next rid res r0 : Nat) (c
   rw [hdef]
   simpa using this
 
+/-! ## Histories on one Ipmi object
+
+The retrieval functions keep no state between calls (`source_variant`, third clause): whatever operations came
+before on the same object - and however they ended - a call sees the device as it stands and nothing else. -/
+
+/-- an operation of the SEL retrieval interface -/
+inductive Op where
+  | entries
+  | get (rid res : Nat)
+  | gac (rid retry : Nat)
+
+/-- the world (device, exchanges so far) after an operation; its result - a value or ANY exception - is dropped -/
+def Op.run (w : World SelDev) : Op → World SelDev
+  | .entries => (selEntries selCfg V respond w).w
+  | .get rid res => (getSelEntry selCfg V respond w rid res).w
+  | .gac rid retry => (getAndClear selCfg V respond retry w rid).w
+
+/-- a history of operations on one object -/
+def runHist (w : World SelDev) (ops : List Op) : World SelDev := ops.foldl Op.run w
+
+/-- the device as a history left it, healthy (again): nothing pending in the script of concurrent changes,
+partial reads of up to `l` bytes served, whole-record reads iff `wh`; `f` = whatever else happened to the device
+in the meantime (a record repaired, the reservation counter moved on) -/
+def healthyAfter (w : World SelDev) (f : SelDev → SelDev) (l : Nat) (wh : Bool) : SelDev :=
+  { f w.dev with limit := l, whole := wh, evs := [] }
+
+/-- After ANY history of operations on the object (each of which may have ended in RetryError - a device that
+refused every length down to one byte, a used-up budget -, CompletionCodeError or DecodingError) against ANY
+earlier behaviour of the device: once the device serves partial reads of `l ≥ 1` bytes (or whole records), the
+listing is the log as it then stands - every record, once, in order. -/
+theorem entries_exact_after_history (w0 : World SelDev) (ops : List Op) (f : SelDev → SelDev) (l : Nat) (wh : Bool)
+    (hl : 1 ≤ l)
+    (hrec : ∀ e ∈ (healthyAfter (runHist w0 ops) f l wh).log, entryOk e = true)
+    (hids : ((healthyAfter (runHist w0 ops) f l wh).log.map entryId).Nodup)
+    (hlen : (healthyAfter (runHist w0 ops) f l wh).log.length < 65536) :
+    (selEntries selCfg V respond ⟨healthyAfter (runHist w0 ops) f l wh, (runHist w0 ops).trace⟩).out =
+      .ok (healthyAfter (runHist w0 ops) f l wh).log :=
+  entries_exact _ _ rfl hl hrec hids hlen
+
+/-- … and so is a single read under a valid reservation … -/
+theorem get_entry_exact_after_history (w0 : World SelDev) (ops : List Op) (f : SelDev → SelDev) (l : Nat) (wh : Bool)
+    (hl : 1 ≤ l) (r rid : Nat) (e : List Nat) (next : Nat)
+    (hvalid : (healthyAfter (runHist w0 ops) f l wh).valid = true)
+    (hcur : (healthyAfter (runHist w0 ops) f l wh).cur = r) (hr1 : 1 ≤ r) (hr : r < 65536) (hrid : rid < 65536)
+    (hfind : find (healthyAfter (runHist w0 ops) f l wh).log rid = some (e, next))
+    (hrec : entryOk e = true) (hnext : next < 65536) :
+    (getSelEntry selCfg V respond ⟨healthyAfter (runHist w0 ops) f l wh, (runHist w0 ops).trace⟩ rid r).out =
+      .ok (e, next) :=
+  get_entry_exact _ r rid e next _ rfl hvalid hcur hr1 hr hrid hl hfind hrec hnext
+
+/-- … and get-and-clear is atomic there (stated below for any device; here for the one a history left). -/
+theorem get_and_clear_after_history (w0 : World SelDev) (ops : List Op) (f : SelDev → SelDev) (l : Nat) (wh : Bool)
+    (rid retry : Nat) (hrid : rid < 65536)
+    (hwf : WF { healthyAfter (runHist w0 ops) f l wh with deleted := [] }) (hfew : 0 < retry)
+    (havail : Always (Avail rid) (healthyAfter (runHist w0 ops) f l wh).log []) :
+    ∃ e r, (getAndClear selCfg V respond retry
+        ⟨{ healthyAfter (runHist w0 ops) f l wh with deleted := [] }, (runHist w0 ops).trace⟩ rid).out = .ok e ∧
+      (getAndClear selCfg V respond retry
+        ⟨{ healthyAfter (runHist w0 ops) f l wh with deleted := [] }, (runHist w0 ops).trace⟩ rid).w.dev.deleted = [(e, r)] := by
+  rw [constants_ok]
+  exact getAndClear_succeeds rid hrid V floor_ok retry _ hwf rfl (by simpa [healthyAfter, nch] using hfew) havail
+
 /-- An empty log: nothing is returned and nothing but Get SEL Info is asked. -/
 theorem empty_log_nothing (d : SelDev) (tr : List Xchg) (hquiet : d.evs = []) (hempty : d.log = []) :
     (selEntries selCfg V respond ⟨d, tr⟩).out = .ok [] ∧
@@ -129,7 +200,7 @@ theorem get_and_clear_atomic (d : SelDev) (tr : List Xchg) (rid retry : Nat) (hr
     (∃ e r, res.out = .ok e ∧ res.w.dev.deleted = [(e, r)]) ∨
     ((∀ e, res.out ≠ .ok e) ∧ res.out ≠ .pyError "nontermination" ∧ res.w.dev.deleted = []) := by
   rw [constants_ok]
-  exact getAndClear_atomic rid hrid V floor_ok retry ⟨d, tr⟩ hwf hnone (Or.inl source_variant.2)
+  exact getAndClear_atomic rid hrid V floor_ok retry ⟨d, tr⟩ hwf hnone (Or.inl source_variant.2.1)
 
 /-- **"Both steps are repeated."**  If the addressed record is still in the log after every change
 of the script (`Always (Avail rid)`: `rid` - an id, 0000h "first" or FFFFh "last" - designates a
